@@ -102,6 +102,8 @@ def standin(tier, seed):
         yield "GrandCanonical(FixAtoms)", lambda a: GrandCanonical(a, Atoms("Cu"), temperature=3000.0, chemical_potential=-0.2, number_of_exchange_particles=3, seed=seed, max_cycles=1), [("x", ExchangeMove(L.copy()))], rich(g, fix=True, extra=False), "gc:constraints_after_rejected_deletion"
         t = Atoms("Cu"); t.set_tags([7])
         yield "GrandCanonical(template with tags)", lambda a, t=t: GrandCanonical(a, t, temperature=3000.0, chemical_potential=-0.2, number_of_exchange_particles=3, seed=seed, max_cycles=1), [("x", ExchangeMove(L.copy()))], rich(g, fix=False, extra=False), "gc:arrays_created_by_extend_remain"
+        yield "GrandCanonical(plain composite delete+insert)", lambda a: GrandCanonical(a, Atoms("Cu"), temperature=3000.0, chemical_potential=-0.2, number_of_exchange_particles=3, seed=seed, max_cycles=1), \
+            [("xx", CompositeMove([ExchangeMove(L.copy(), bias_towards_insert=0.0), ExchangeMove(L.copy(), bias_towards_insert=1.0)]))], rich(g, fix=False, extra=True), None
         yield "GrandCanonical(plain composite insert+delete)", lambda a: GrandCanonical(a, Atoms("Cu"), temperature=3000.0, chemical_potential=-0.2, number_of_exchange_particles=3, seed=seed, max_cycles=1), \
             [("xx", CompositeMove([ExchangeMove(L.copy(), bias_towards_insert=1.0), ExchangeMove(L.copy(), bias_towards_insert=0.0)]))], rich(g, fix=False, extra=False), "gc:plain_composite_insert_and_delete_revert"
 
